@@ -91,6 +91,11 @@ def forged_signature(obj, auto=True, args=(), kwargs={}):
     if forger is not None:
         ret = forger(obj=subject)
         if ret is not None:
+            if not isinstance(ret, _util.funcsigs.Signature):
+                # eg. objects that answer to every attribute name
+                raise TypeError(
+                    'unexpected object {0!r} returned by signature forger'
+                    .format(ret))
             return _signatures.UpgradedSignature._upgrade_with_warning(ret)
     if auto:
         try:
